@@ -16,7 +16,7 @@ ASSUME_CONN = ["handler-supplied strings contain no NUL byte",
 def conn_family(cx, model, gen_prop, n_quick, n_thorough, consts_thorough=None, rule="", extra_models=(),
                 trace_module="Trace_PgConn", trace_cfg=None, mc_workers=1, known_match=None, gen_extra=None,
                 play_extra=None, negative=(), proj=None, max_replay_quick=6000, max_replay_thorough=60000,
-                finish_now=True, flow=False):
+                finish_now=True, flow=False, tlc_passes=1):
     """Generic procedure for properties decided on the single-connection machine."""
     build_harness(cx)
     thorough = cx.tier == "thorough"
@@ -45,10 +45,14 @@ def conn_family(cx, model, gen_prop, n_quick, n_thorough, consts_thorough=None, 
         if tag.startswith("tlc"):
             subsample(cx, b, max_replay_thorough if thorough else max_replay_quick)
         sample_behaviours(cx, b)
-        trace, crash = play(cx, b, tag, extra=play_extra)
-        rejected = [] if crash else validate(cx, trace, trace_module, trace_cfg)
-        judge(cx, b, trace, rejected, crash, trace_module, trace_cfg=trace_cfg, known_match=known_match,
-              play_extra=play_extra)
+        # behaviours whose concrete values are drawn at replay time (symbolic limits, payloads) may be replayed
+        # several times with different draws
+        for k in range(tlc_passes if tag.startswith("tlc") else 1):
+            pe = play_extra + (["-seedindex", str(k * 100003)] if k else [])
+            trace, crash = play(cx, b, tag if k == 0 else "%s-pass%d" % (tag, k), extra=pe)
+            rejected = [] if crash else validate(cx, trace, trace_module, trace_cfg)
+            judge(cx, b, trace, rejected, crash, trace_module, trace_cfg=trace_cfg, known_match=known_match,
+                  play_extra=play_extra, seed_base=k * 100003)
     if flow and not cx.violations:
         flow_step(cx, b2 if gen_prop else None)
         rule += (" In addition the raw conversations of the repository's own test suite (pgx, lib/pq, raw sockets) and of "
@@ -197,7 +201,7 @@ def c19(cx):
 def c10(cx):
     limits = "16,17,64,4095,4096,4097,8192,65536" + (",0,-1" if cx.tier == "thorough" else "")
     return conn_family(
-        cx, "MC_C10", "C10", 600, 30000, flow=True,
+        cx, "MC_C10", "C10", 600, 30000, flow=True, tlc_passes=4,
         consts_thorough={"MaxSends": 6},
         extra_models=[("MC_C10", "MC_C10pre.cfg", None, None, "C10pre")],
         play_extra=["-limits", limits],
@@ -555,6 +559,7 @@ PROPS = {"C04": c04, "C15": c15, "C11": c11, "C18": c18, "C03": c03, "C02": c02,
 
 def replay(cx, path):
     """Re-drive a replay bundle and re-validate it."""
+    path = os.path.abspath(path)
     meta = json.load(open(os.path.join(path, "meta.json")))
     build_harness(cx)
     if meta.get("play_cmd", "").startswith("flow-"):
